@@ -11,6 +11,7 @@ import (
 	"google.golang.org/protobuf/proto"
 	"runtime"
 	"strconv"
+	"strings"
 
 	"google.golang.org/protobuf/reflect/protoreflect"
 )
@@ -175,6 +176,21 @@ func init() {
 			scn.Cl.Chunks = []int{100}
 			scn.Hd.Writes = []int{100}
 		}
+		if ls.Dir == "end" {
+			// the message is small; what is sized is the backend's END frame (gRPC-Web trailer frame, Connect
+			// end-of-stream message), sent compressed: tiny on the wire, `target` bytes once inflated
+			scn.Msgs["2"] = "ascii"
+			scn.Cl.Accept = []string{"gzip"}
+			scn.Cl.Comp = "gzip"
+			scn.Cl.Frames[0].Z = true
+			scn.Hd.Comp = "gzip"
+			scn.Hd.End.Style = "zend"
+			if target < ls.L {
+				target /= 2 // (the frame around the value has to fit as well)
+			}
+			scn.Hd.End.Trl = []string{"huge:" + strconv.Itoa(target)}
+			obs.Wire, obs.Plain, obs.Recoded = len(gz([]byte(strings.Repeat("x", target)))), target, target
+		}
 		var before, after runtime.MemStats
 		runtime.GC()
 		runtime.ReadMemStats(&before)
@@ -202,7 +218,9 @@ func init() {
 			}
 			return cnt == 1
 		}
-		if ls.Dir == "req" {
+		if ls.Dir == "end" {
+			obs.Delivered = len(o.Cl.End.Trl) == 1 // the sized trailer reached the client
+		} else if ls.Dir == "req" {
 			obs.Delivered = len(o.Disp) > 0 && idsOK(o.Disp[0].Frames, 1)
 		} else {
 			obs.Delivered = idsOK(o.Cl.Frames, 2)
